@@ -199,6 +199,15 @@ def run(cx, tier='quick'):
     # an accepted `method = path` whose path is shadowed by a local of the generated function does not compile
     from .c19 import check_method_capture
     check_method_capture(cx, rep)
+    # a literal default that is emitted as it stands must have the field's type, any other one goes through `Into::into(<the whole
+    # expression>)` (EXPR-TABLE, shared with C08): a wrong cell is an accepted request whose expansion does not type-check
+    from .c08 import check_expr_table
+    check_expr_table(cx, rep)
+    # the type-level and the field-level builder of Into key their targets the same way (shared with C10): otherwise the documented
+    # `Into(&str)` marker on a field is refused
+    from .c10 import check_keys_normalised, check_hash_type
+    check_keys_normalised(cx, rep)
+    check_hash_type(cx, rep)
     rep.floor('TPL-PARSE', 200, '(276 templates today)')
     rep.floor('TPL-OPT', 3, '(4 optional-hole positions today; let-bound sub-templates are inlined into their parent template)')
     rep.floor('TPL-ARITY', 40)
